@@ -2,6 +2,7 @@ package main
 
 import (
 	"go/ast"
+	"regexp"
 	"go/token"
 	"strings"
 )
@@ -49,6 +50,51 @@ func c06Run(fs *Facts, names []string) {
 }
 
 func c06At(f *File, n ast.Node) string { return f.Path + ":" + itoa(f.Line(n)) }
+
+// c06Inline renders e with every local of fd that is defined exactly once (`a, b := x, y`) and never
+// assigned again replaced by the text of its defining expression (one level), so that a pattern does
+// not depend on whether a sub-expression was given a name.
+func c06Inline(f *File, fd *ast.FuncDecl, e ast.Node) string {
+	defs, count := map[string]string{}, map[string]int{}
+	ast.Inspect(fd.Body, func(n ast.Node) bool {
+		switch x := n.(type) {
+		case *ast.AssignStmt:
+			for i, l := range x.Lhs {
+				id, ok := l.(*ast.Ident)
+				if !ok {
+					continue
+				}
+				count[id.Name]++
+				if x.Tok.String() == ":=" && len(x.Lhs) == len(x.Rhs) {
+					defs[id.Name] = f.Str(x.Rhs[i])
+				}
+			}
+		case *ast.IncDecStmt:
+			if id, ok := x.X.(*ast.Ident); ok {
+				count[id.Name] += 2
+			}
+		case *ast.RangeStmt:
+			for _, l := range []ast.Expr{x.Key, x.Value} {
+				if id, ok := l.(*ast.Ident); ok {
+					count[id.Name] += 2
+				}
+			}
+		}
+		return true
+	})
+	out := f.Str(e)
+	for name, rhs := range defs {
+		if count[name] != 1 {
+			continue
+		}
+		if strings.ContainsAny(rhs, " ") {
+			rhs = "(" + rhs + ")"
+		}
+		re := regexp.MustCompile(`(^|[^.\w])` + regexp.QuoteMeta(name) + `\b`)
+		out = re.ReplaceAllString(out, "${1}"+strings.ReplaceAll(rhs, "$", "$$"))
+	}
+	return out
+}
 
 // assignments `<x>.<field> = <rhs>` under n
 func c06Assigns(f *File, n ast.Node, pred func(lhs, rhs string) bool) []*ast.AssignStmt {
@@ -180,7 +226,7 @@ func c06All(gw, sw, tr *File) map[string]c06Fact {
 		if fd := gw.Func("", "isValidTimestamp"); fd != nil {
 			for _, st := range gw.Stmts(fd.Body) {
 				if r, ok := st.(*ast.ReturnStmt); ok && len(r.Results) == 1 {
-					switch gw.Str(r.Results[0]) {
+					switch c06Inline(gw, fd, r.Results[0]) {
 					case "ts.GetSeconds() > 0 || ts.GetNanos() > 0":
 						fact = c06Fact{No, c06At(gw, r)}
 					case "ts.AsTime().UnixNano() > 0", "ts.GetSeconds() > 0 || (ts.GetSeconds() == 0 && ts.GetNanos() > 0)":
